@@ -20,7 +20,7 @@ RULE = ('A: grid {relative,absolute} x loop sequences depth 0-3 over representat
 ASSUMPTIONS = ['loop ids used in generated paths cannot be read as segment ids or element indexes (the grammar itself is ambiguous there)',
                'values written by set() contain no delimiter characters; refdes without an element index are not used for set()',
                'map element ids with a zero-padded component index (CLM05-01) are only required to re-parse to an equal path, not to print identically']
-REQUIRED_COUNTERS = ['A:paths', 'A:expected-reject', 'A:map-node-paths', 'B:histories', 'B:sets', 'B:gets-compared', 'B:foreign-refused', 'B:foreign-after-accepted']
+REQUIRED_COUNTERS = ['A:equality-after-hashing', 'A:paths', 'A:expected-reject', 'A:map-node-paths', 'B:histories', 'B:sets', 'B:gets-compared', 'B:foreign-refused', 'B:foreign-after-accepted']
 MIN_CASES = {'quick': 20000, 'thorough': 500000}
 
 LOOPS = ['2000A', 'ISA_LOOP', '2300', 'HEADER', '1000B', '2010AA', '2400', 'GS_LOOP']
@@ -69,6 +69,14 @@ def check_path(ctx, text, exp_fields, expect_err, src):
             ctx.viol('path:reparse-neq', 'parsing the printed form gives a different path', case, {'printed': f})
         if p2.format() != f:
             ctx.viol('path:print-not-idempotent', 'printing the re-parsed path differs', case, {'printed': f, 'again': p2.format()})
+        # equality must not depend on what has been done with a path object before: use one of them as a dict key / set member (the map walker
+        # counts nodes by their path objects), then compare again in both directions and look the other one up
+        ctx.count('A:equality-after-hashing')
+        table = {p: 1}
+        p3 = X12Path(f)
+        if not (p == p3) or not (p3 == p) or (p != p3) or (p3 != p) or hash(p) != hash(p3) or p3 not in table or p3 not in set([p]):
+            ctx.viol('path:equality-depends-on-history', 'a path that was used as a dict key is no longer equal to (or found by) a freshly parsed equal path', case,
+                     {'printed': f, 'eq': [p == p3, p3 == p], 'ne': [p != p3, p3 != p], 'hash_equal': hash(p) == hash(p3), 'found': p3 in table})
     except Exception as ex:
         ctx.viol('path:reparse-raises-%s' % type(ex).__name__, 'parsing the printed form raised', case, {'printed': f, 'exc': repr(ex)})
 
